@@ -147,7 +147,7 @@ def rand_toks(rnd, depth):
 
 def check(ctx):
     C.extract(ctx)
-    C.prove(ctx, ["Oq3.Props.C05"])
+    C.prove(ctx, ["Oq3.Props.C05", "Oq3.Props.C05Roles", "Oq3.Props.C05RolesTrees"])
     okb, log = C.cargo_build()
     if not okb:
         C.violation(ctx, "harness-build-failed", {"log": log[-3000:]}, no_input=True)
@@ -252,6 +252,14 @@ def check(ctx):
         if ok:
             nroles += 1
     nontriv += nroles
+    # the accessor layer itself: Lean model of oq3_syntax::ast's typed accessors (Oq3/Model/Accessors.lean) on the
+    # implementation's own tree, against the implementation's typed-AST dump, character for character
+    from . import acc_corr as AC
+    from . import gen_prog as GP
+    acc_texts = C.uniq([r["case"]["text"] for r in rrecs] + GP.gen_programs(ctx.seed + 51, 3000 if q else 50000))
+    arecs, astats = AC.run(ctx, acc_texts) if have_model else ([], {})
+    ndis += astats.get("disagree", 0)
+    ctx.coverage["accessor_layer"] = dict(astats)
     ctx.coverage["role_programs"] = {"cases": rstats["cases"], "accepted_and_matching": nroles,
                                      "attributed_cst": rstats["cst_attributed"], "attributed_ast": rstats["ast_attributed"]}
     failures.sort(key=lambda x: len(x["case"]))
@@ -268,5 +276,5 @@ def check(ctx):
     })
     return C.finish(ctx, trusted=C.TRUSTED_COMMON + [
         "the expression core is abstracted from events to trees (Oq3/Model/Pratt.lean); the abstraction is tied to the real parser by the shape comparison on every case",
-        "roles of statement constituents: the typed accessors of oq3_syntax::ast are run, not modelled in Lean; they are decided by the reference-derivation oracle (vf/gen_ref.py) on the implementation's CST and typed-AST dump"],
+        "the typed accessors of oq3_syntax::ast (generated nodes.rs tables translated on every run into Oq3/Gen/Nodes.lean; hand-written accessors hand-modelled in Oq3/Model/Accessors.lean) are tied to the code by comparing the model's typed-AST dump with the implementation's on every case; f64 parsing/printing is modelled (Oq3/Model/F64Text.lean) only so that dumps can be compared"],
         assumptions=["OpenQASM 3 precedence table as in Oq3.Props.C05.specLevel"])
